@@ -650,6 +650,16 @@ pub fn gen_ids(t: &mut Tape, u: &mut Universe, p: &Params) {
     for (v, id) in u.strings.iter_mut().zip(ids) {
         v.id = id;
     }
+    // The id spaces are independent: a version set and a union may carry the same number, also
+    // modulo the high bit (ids are plain u32; nothing in the solver allocates by these two).
+    if p.far_ids > 0 && !u.unions.is_empty() && !u.vsets.is_empty() && t.chance(p.far_ids, 2000) {
+        let un = u.unions[t.below(u.unions.len())].id;
+        let vi = t.below(u.vsets.len());
+        let new = if t.chance(1, 2) { 0x8000_0000 | un } else { un };
+        if !u.vsets.iter().any(|v| v.id == new) {
+            u.vsets[vi].id = new;
+        }
+    }
 }
 
 /// The standard "full case": universe + problem + ids.
